@@ -74,6 +74,13 @@ func rulesLRUOrderCoupdate(c *Ctx, r *Report) {
 				}
 			}
 		}
+		// does fn rewrite the order at all (directly or through an always-storing helper)?
+		rewrites := len(orderStores) > 0
+		for _, cs := range callsIn(fn) {
+			if sf := cs.Instr.Common().StaticCallee(); sf != nil && sf.Pkg == fn.Pkg && sf != fn && alwaysStoresField(sf, tLRU+".lruOrder") {
+				rewrites = true
+			}
+		}
 		for _, d := range dels {
 			n++
 			np, bad := 0, 0
@@ -93,6 +100,21 @@ func rulesLRUOrderCoupdate(c *Ctx, r *Report) {
 				// very correspondence this rule maintains (the key was in entries)
 				for _, l := range searchLoops {
 					if len(l.Header.Instrs) > 0 && instrAfterOnPath(p, d, l.Header.Instrs[0]) {
+						ok = true
+					}
+				}
+				// the same through helpers of the type: a call that always rewrites the
+				// order, or a search helper (ranges over the order, returns a position)
+				// whose result decides a rewriting call
+				for _, cs := range callsIn(fn) {
+					sf := cs.Instr.Common().StaticCallee()
+					if sf == nil || sf.Pkg != fn.Pkg || sf == fn || !instrAfterOnPath(p, d, cs.Instr) {
+						continue
+					}
+					if alwaysStoresField(sf, tLRU+".lruOrder") {
+						ok = true
+					}
+					if rewrites && isOrderSearchHelper(sf, tLRU+".lruOrder") {
 						ok = true
 					}
 				}
